@@ -96,7 +96,8 @@ def _one_format(args):
         out = os.path.join(td, 'out.bin')
         pp = os.path.join(td, 'out.txt')
         cli = [f'{n}={v}' if v != '' else n for n, v in case['cfg']['cli']]
-        asm = Assembler(paths[0], isa, True, out, 0, None, 0, True, fmt, pp, 0, incdirs, cli)
+        o = case['opts']
+        asm = Assembler(paths[0], isa, True, out, o['start'], o['end'], o['fill'], True, fmt, pp, 0, incdirs, cli)
         asm.assemble_bytecode()
         with open(pp) as f:
             text = f.read()
@@ -136,7 +137,12 @@ def formats_tie(n_quick=150, n_thorough=2500):
         out = []
         for _ in range(n_quick if tier == 'quick' else n_thorough):
             c = gen_program(rng, prof, tier)
-            c['opts'] = {'start': 0, 'end': None, 'fill': 0}
+            # the formats describe all of memory, the image the window the options ask for: a fill value other than 0 (an
+            # assembled zero byte is not a gap), now and then an explicit end a few bytes into the program (often the first byte
+            # of a line)
+            c['opts'] = {'start': 0, 'end': None, 'fill': rng.choice([0, 0, 0xEE, 0xFF])}
+            if rng.random() < 0.3:
+                c['opts']['end'] = c['cfg']['origin'] + rng.randint(0, 12)
             out.append(c)
         return out
     return Tie(name='formats', imports=['Base', 'Program', 'Formats'], run_def='run_formats', eqb='obs_formats_eqb',
@@ -385,6 +391,70 @@ def redefined_symbol_cases(rng, n):
     return out
 
 
+ORDER_ISA = '''
+description: verif operand order
+general:
+  address_size: 16
+  endian: big
+  registers: [a, sp]
+  identifier: {name: verif-order, version: "1.0.0"}
+operand_sets:
+  vals:
+    operand_values:
+      ID1: {type: numeric, bytecode: {value: 1, size: 4}, argument: {size: 8, byte_align: true}}
+      ID2: {type: numeric, bytecode: {value: 2, size: 4}, argument: {size: 16, byte_align: true}}
+      ID3: {type: numeric, bytecode: {value: 3, size: 4}, argument: {size: 8, byte_align: true}}
+  ptrs:
+    operand_values:
+      ID4: {type: indirect_register, register: sp, bytecode: {value: 4, size: 4}, offset: {max: 127, min: -128, size: 8, byte_align: true}}
+      ID5: {type: indirect_register, register: sp, bytecode: {value: 5, size: 4}}
+instructions:
+  ldv:
+    bytecode: {value: 10, size: 4}
+    operands: {count: 1, operand_sets: {list: [vals]}}
+  ldp:
+    bytecode: {value: 11, size: 4}
+    operands: {count: 1, operand_sets: {list: [ptrs]}}
+'''
+
+
+def operand_order_cases(rng, n):
+    """several operands of the same type in one operand set that accept the same text: which one is used is decided by their
+    order in the instruction set file, under every hash seed (operand names of many shapes, so that their hashes scatter)"""
+    out = []
+    for _ in range(n):
+        ids = rng.sample(['imm8', 'imm16', 'byte_value', 'word', 'n', 'k', 'value_a', 'value_b', 'short', 'long', 'sp_off', 'sp_plain', 'x1', 'x2',
+                          'first', 'second', 'zz', 'a1'], 5)
+        y = ORDER_ISA
+        for i, nm in enumerate(ids):
+            y = y.replace(f'ID{i + 1}:', nm + ':')
+        stmts = [['other_text', 'ldv 5'], ['other_text', 'ldp [sp]'], ['other_text', 'ldv 300'], ['other_text', 'ldp [sp+2]']]
+        stmts = stmts[:rng.randint(2, 4)]
+        out.append({'cfg': {'addr_bits': 16, 'cli': []}, 'isa_yaml': y, 'files': [{'name': 'main.asm', 'dir': 'src', 'stmts': stmts}],
+                    'include_dirs': [], 'extra_files': [], 'opts': {'start': 0, 'end': None, 'fill': 0},
+                    'det_seed': rng.randrange(1 << 30), 'det_runs': 8, 'isa': {'macros': {}}})
+    return out
+
+
+def working_directory_cases(rng, n):
+    """no -I at all, an include that sits next to the main file, and a file of the same name in one of the directories the
+    assembler is started from: the working directory is not a place where included files are looked for"""
+    from .sysgen import num
+    out = []
+    for k in range(n):
+        base = dict(addr_bits=16, endian='big', origin=0, page=1, terminator=0, embedded=False, zones=[], consts=[], data=[], syms=[], cli=[])
+        files = [{'name': 'main.asm', 'dir': 'src', 'stmts': [['data', 1, [num(1)]], ['include', 1, 'defs.asm'], ['data', 1, [num(2)]]]},
+                 {'name': 'defs.asm', 'dir': 'src', 'stmts': [['data', 1, [num(0x30 + k)]]]}]
+        c = {'cfg': base, 'files': files, 'include_dirs': [],
+             'extra_files': [{'dir': '.', 'name': 'defs.asm', 'text': f'    .byte {0x90 + k}\n'}],
+             'opts': {'start': 0, 'end': None, 'fill': 0}, 'det_seed': rng.randrange(1 << 30), 'det_runs': 4, 'isa': {'macros': {}}}
+        if k % 2 == 1:
+            # the include is found nowhere the assembler may look; the working directory has a file of that name
+            c['files'] = [files[0]]
+        out.append(c)
+    return out
+
+
 def isa_determinism_oracle(n_quick=25, n_thorough=400):
     def gen(rng, tier):
         from . import sysisa
@@ -397,7 +467,8 @@ def isa_determinism_oracle(n_quick=25, n_thorough=400):
         q = tier == 'quick'
         return (out + dotted_cases(rng, 12 if q else 150) + mnemonic_family_cases(rng, 12 if q else 150)
                 + symlink_include_cases(rng, 4 if q else 40) + multi_dir_cases(rng, 6 if q else 60)
-                + ambiguous_name_cases(rng, 8 if q else 60) + redefined_symbol_cases(rng, 8 if q else 80))
+                + ambiguous_name_cases(rng, 8 if q else 60) + redefined_symbol_cases(rng, 8 if q else 80)
+                + operand_order_cases(rng, 10 if q else 100) + working_directory_cases(rng, 4 if q else 30))
     return Oracle(name='determinism_isa', gen=gen, check=_isa_determinism_check, nontrivial=lambda c: True,
                   classify=lambda c: 'isa', timeout=600)
 
@@ -522,6 +593,9 @@ def failclosed_oracle(n_quick=120, n_thorough=2500):
         forms += [('unknown instruction', ['other_text', t]) for t in ('frobnicate a, 5', 'ldii a, 5', 'nopp', '.bite 1')]
         forms += [('no variant accepts', st) for st in (['instr', 'ldi', ['a', 'b']], ['instr', 'nop', [num(1)]], ['instr', 'ldi', ['a']],
                                                         ['instr', 'ldi', ['a', num(1), num(2)]], ['instr', 'jmp', ['a']])]
+        # text left over behind a well-formed operand, made of characters that belong to no token of the expression language
+        forms += [('unrecognised text after an operand', ['other_text', t]) for t in (
+            'ldi a, 5!', 'ldi a, 5 @', 'ldi a, 7 ~', 'jmp $0100?', 'ldi a, (1+2)*2`', 'lda 3 \\', 'ldi a, 5 !', 'jmp 5#')]
         forms += [('value does not fit', st) for st in (['instr', 'ldi', ['a', num(256)]], ['instr', 'ldi', ['a', num(-129)]],
                                                         ['instr', 'jmp', [num(65536)]], ['instr', 'lda', [num(0x1000)]])]
         # (data directives reduce their values modulo 2^width by C11: '.byte 256' is not a value its field cannot hold)
